@@ -632,6 +632,36 @@ example : F64.same (report (Accum.remainder ⟨.fin false 360 53, .fin false 100
   decide +kernel
 example : repB (.fin false 360 53) = true ∧ repB (.fin false 100 0) = true ∧ repB (.fin false 360 0) = true := by decide +kernel
 
+/-- **`Accumulator::fastsum` is error free when `|u| ≥ |v|`** (Dekker's Fast2Sum for the binary64 model; the routine is private and
+currently unused by the library, its documented precondition is exactly the hypothesis): `s = RN(u + v)` and `s + t = u + v`. -/
+theorem fastsum_exact (u v : F64) (hu : F64.IsRep u) (hv : F64.IsRep v) (huv : |v.val| ≤ |u.val|)
+    (hub : |u.val| ≤ (2:ℚ) ^ (1018:ℤ)) :
+    (fastsum u v).1.isFinite = true ∧ (fastsum u v).2.isFinite = true ∧
+    RN (u.val + v.val) (fastsum u v).1.val ∧ (fastsum u v).1.val + (fastsum u v).2.val = u.val + v.val := by
+  have hvb : |v.val| ≤ (2:ℚ) ^ (1018:ℤ) := le_trans huv hub
+  obtain ⟨f1, r1, b1⟩ := F64.add_rn u v hu.1 hv.1 1019 (by norm_num) (by norm_num)
+    (F64.bound_add hub hvb (by norm_num) (by norm_num))
+  obtain ⟨f2, r2, b2⟩ := F64.sub_rn (u + v) u f1 hu.1 1020 (by norm_num) (by norm_num)
+    (F64.bound_sub b1 hub (by norm_num) (by norm_num))
+  -- vp = s ⊖ u is exact (Fast2Sum step)
+  have hvp : Rep ((u + v).val - u.val) := fts_rep hu.2 hv.2 huv r1
+  have e2 : (u + v - u).val = (u + v).val - u.val := hvp.rn_eq r2
+  obtain ⟨f3, r3, _⟩ := F64.sub_rn v (u + v - u) hv.1 f2 1021 (by norm_num) (by norm_num)
+    (F64.bound_sub hvb b2 (by norm_num) (by norm_num))
+  -- t = v ⊖ vp = (u + v) − s, the representable rounding error
+  have herr : Rep (u.val + v.val - (u + v).val) := err_rep hu.2 hv.2 r1
+  have e3 : (v - (u + v - u)).val = u.val + v.val - (u + v).val := by
+    have : v.val - (u + v - u).val = u.val + v.val - (u + v).val := by rw [e2]; ring
+    rw [this] at r3; exact herr.rn_eq r3
+  refine ⟨f1, f3, r1, ?_⟩
+  show (u + v).val + (v - (u + v - u)).val = _
+  rw [e3]; ring
+
+/-- non-vacuity: u = 2^53, v = 1 (the sum is inexact, the error word is 1) -/
+example : (2:ℚ) ^ (53:ℤ) ≥ 1 ∧ F64.same (fastsum (.fin false 1 53) (.fin false 1 0)).1 (.fin false 1 53) = true ∧
+    F64.same (fastsum (.fin false 1 53) (.fin false 1 0)).2 (.fin false 1 0) = true := by
+  refine ⟨by norm_num, by decide +kernel, by decide +kernel⟩
+
 end AccumulatorHistory
 
 /-! ## `sincosd` / `sincosde` / `sind` / `cosd` / `tand` / `atand`: laws of the full models (`Model/MathG.lean`)
@@ -879,6 +909,130 @@ theorem tand_special45 (k : Kern) (x : F64) (h : sincosBranch (F64.remainder x q
 
 /-- non-vacuity: 135° takes the 45° branch -/
 example : sincosBranch (F64.remainder (F64.fin false 135 0) qd) = Branch.s45 := by decide +kernel
+
+/-! ### `AngRound` below 1/16 -/
+
+theorem sixteenth_val : (F64.fin false 1 (-4)).val = 1 / 16 := by rw [F64.val_fin]; norm_num
+
+theorem rep_sixteenth : Rep ((1:ℚ) / 16) := ⟨1, -4, by norm_num, by norm_num, by norm_num⟩
+
+theorem grid57_sixteenth : OnGrid (-57) ((1:ℚ) / 16) := ⟨2 ^ 53, by norm_num⟩
+
+theorem lt_zero_iff (w : F64) (hw : w.isFinite = true) : F64.gt w 0 = true ↔ 0 < w.val := by
+  obtain ⟨s, m, e, rfl⟩ := F64.exists_fin_of_isFinite w hw
+  show Dy.lt (0 : F64).toDy (F64.fin s m e).toDy = true ↔ _
+  rw [Dy.lt_iff]
+  have : (0 : F64).toDy.val = 0 := by show (F64.fin false 0 0).toDy.val = 0; simp [F64.toDy, Dy.val]
+  rw [this]; rfl
+
+/-- **AngRound below 1/16** (every representable `|x| < 1/16`): the result is finite, keeps the sign bit of `x` (also for `±0`),
+its magnitude `a` is a multiple of the documented gap `1/16 − nextafter(1/16, 0) = 2^−57`, lies in `[0, 1/16]`, and is within half a gap
+(`2^−58`) of `|x|` — i.e. `AngRound` rounds `|x|` to the nearest multiple of `2^−57`.  Together with `angRound_big` this is the whole
+function. -/
+theorem angRound_small (s : Bool) (m : ℕ) (e : ℤ) (hx : F64.IsRep (F64.fin s m e)) (h : |(F64.fin s m e).val| < 1 / 16) :
+    ∃ a : ℚ, 0 ≤ a ∧ a ≤ 1 / 16 ∧ OnGrid (-57) a ∧ |a - (|(F64.fin s m e).val|)| ≤ (2:ℚ) ^ (-58:ℤ) ∧
+      (angRound (F64.fin s m e)).isFinite = true ∧ (angRound (F64.fin s m e)).signbit = s ∧
+      (angRound (F64.fin s m e)).val = if s then -a else a := by
+  set y := |(F64.fin s m e).val| with hy
+  have hy0 : 0 ≤ y := abs_nonneg _
+  have hyrep : Rep y := by
+    have := (abs_fin_isRep s m e hx).2; rw [F64.val_abs_fin] at this; exact this
+  have habsv : (F64.abs (F64.fin s m e)).val = y := F64.val_abs_fin s m e
+  have habsf : (F64.abs (F64.fin s m e)).isFinite = true := rfl
+  have hzf : (F64.fin false 1 (-4)).isFinite = true := rfl
+  -- w = z ⊖ y
+  obtain ⟨wf, wr, _⟩ := F64.sub_rn (F64.fin false 1 (-4)) (F64.abs (F64.fin s m e)) hzf habsf 0 (by norm_num) (by norm_num) (by
+    rw [sixteenth_val, habsv]; rw [abs_le]; constructor <;> norm_num <;> linarith)
+  rw [sixteenth_val, habsv] at wr
+  set w := (F64.fin false 1 (-4)) - F64.abs (F64.fin s m e) with hw
+  set v := (1:ℚ) / 16 - y with hv
+  have hvpos : 0 < v := by linarith
+  have hvle : v ≤ 1 / 16 := by linarith
+  -- w is on the grid 2^-57, within 2^-58 of v, and 0 < w ≤ 1/16
+  have hwle : w.val ≤ 1 / 16 := wr.le_of_le_rep rep_sixteenth hvle
+  have key : OnGrid (-57) w.val ∧ |w.val - v| ≤ (2:ℚ) ^ (-58:ℤ) ∧ 0 < w.val := by
+    by_cases hbig : (1:ℚ) / 32 ≤ y
+    · -- y ≥ 1/32: y is on the grid, the subtraction is exact
+      have hyg : OnGrid (-57) y := by
+        have := hyrep.onGrid_of_ge (-4) (by rw [abs_of_nonneg hy0]; norm_num; linarith)
+        simpa using this
+      have hvg : OnGrid (-57) v := grid57_sixteenth.sub hyg
+      have hvrep : Rep v := Rep.of_grid hvg (by norm_num) (by
+        rw [abs_of_pos hvpos]; norm_num; linarith)
+      have := hvrep.rn_eq wr
+      rw [this]
+      exact ⟨hvg, by simp, hvpos⟩
+    · have hlt : y < 1 / 32 := not_le.mp hbig
+      have hvne : v ≠ 0 := hvpos.ne'
+      obtain ⟨hg, hc⟩ := wr.spec hvne
+      by_cases hv16 : v = 1 / 16
+      · have := rep_sixteenth.rn_eq (hv16 ▸ wr)
+        rw [this, hv16]
+        exact ⟨grid57_sixteenth, by simp, by norm_num⟩
+      · have hvlt : v < 1 / 16 := lt_of_le_of_ne hvle hv16
+        have hbin : bin v = -4 := by
+          apply bin_unique
+          · rw [abs_of_pos hvpos]; norm_num; linarith
+          · rw [abs_of_pos hvpos]; norm_num; linarith
+        have htq : tq v = -57 := by unfold tq; rw [hbin]; norm_num
+        rw [htq] at hg hc
+        have h58 : (2:ℚ) ^ (-57:ℤ) = 2 * (2:ℚ) ^ (-58:ℤ) := by
+          rw [show (-57:ℤ) = 1 + -58 by norm_num, Dy.two_zpow_split]; norm_num
+        refine ⟨hg, by rw [h58] at hc; linarith, ?_⟩
+        -- w ≥ 1/32 > 0
+        have : (1:ℚ) / 32 ≤ w.val := wr.ge_of_ge_rep ⟨1, -5, by norm_num, by norm_num, by norm_num⟩ (by linarith)
+        linarith
+  obtain ⟨hwg, hwerr, hwpos⟩ := key
+  have hgt : F64.gt w 0 = true := (lt_zero_iff w wf).mpr hwpos
+  -- y' = z ⊖ w, exact
+  obtain ⟨yf, yr, _⟩ := F64.sub_rn (F64.fin false 1 (-4)) w hzf wf 0 (by norm_num) (by norm_num) (by
+    rw [sixteenth_val]; rw [abs_le]; constructor <;> norm_num <;> linarith)
+  rw [sixteenth_val] at yr
+  have hag : OnGrid (-57) ((1:ℚ) / 16 - w.val) := grid57_sixteenth.sub hwg
+  have harep : Rep ((1:ℚ) / 16 - w.val) := Rep.of_grid hag (by norm_num) (by
+    rw [abs_of_nonneg (by linarith)]; norm_num; linarith)
+  have hyv : ((F64.fin false 1 (-4)) - w).val = 1 / 16 - w.val := harep.rn_eq yr
+  -- assemble
+  have hres : angRound (F64.fin s m e) = copysign ((F64.fin false 1 (-4)) - w) (F64.fin s m e) := by
+    unfold angRound
+    simp only []
+    rw [← hw, hgt]; simp
+  obtain ⟨s', m', e', hfin'⟩ := F64.exists_fin_of_isFinite _ yf
+  refine ⟨1 / 16 - w.val, by linarith, by linarith, hag, ?_, ?_, ?_, ?_⟩
+  · have : (1:ℚ) / 16 - w.val - y = -(w.val - v) := by rw [hv]; ring
+    rw [this, abs_neg]; exact hwerr
+  · rw [hres, hfin']; rfl
+  · rw [hres, hfin']; rfl
+  · rw [hres, hfin']
+    show (F64.fin s m' e').val = _
+    have hnn : 0 ≤ (F64.fin s' m' e').val := by rw [← hfin', hyv]; linarith
+    have habs' : (F64.fin false m' e').val = |(F64.fin s' m' e').val| := F64.val_abs_fin s' m' e'
+    rw [abs_of_nonneg hnn, ← hfin', hyv] at habs'
+    cases s
+    · simp only [Bool.false_eq_true, if_false]; exact habs'
+    · simp only [if_true]
+      have : (F64.fin true m' e').val = -(F64.fin false m' e').val := by
+        rw [F64.val_fin, F64.val_fin]; simp
+      rw [this, habs']
+
+/-- non-vacuity: 2^-10 and −0 are representable and below 1/16 -/
+example : F64.IsRep (F64.fin false 1 (-10)) ∧ |(F64.fin false 1 (-10)).val| < 1 / 16 := by
+  refine ⟨GeoVerif.Accum.isRep_of_repB _ (by decide +kernel), ?_⟩
+  rw [F64.val_fin]; norm_num
+
+/-- **AngRound is odd**, bit for bit, for every argument (NaN and infinities included) -/
+theorem angRound_odd (z : F64) : angRound (F64.neg z) = F64.neg (angRound z) := by
+  cases z with
+  | nan => rfl
+  | inf s => cases s <;> rfl
+  | fin s m e =>
+    unfold angRound
+    simp only []
+    have ha : F64.abs (F64.neg (F64.fin s m e)) = F64.abs (F64.fin s m e) := rfl
+    rw [ha]
+    generalize (if F64.gt ((F64.fin false 1 (-4)) - F64.abs (F64.fin s m e)) 0 = true
+      then (F64.fin false 1 (-4)) - ((F64.fin false 1 (-4)) - F64.abs (F64.fin s m e)) else F64.abs (F64.fin s m e)) = y
+    cases y <;> rfl
 
 end Trig
 
